@@ -1,0 +1,35 @@
+//go:build verif
+
+// Package verifspec holds the ghost helpers used by the contract files (zz_*_verif.go). It is compiled only
+// under the build tag "verif"; nothing in the broker imports it. Every helper is executable Go, so a contract can
+// be run against the real code when a counterexample is replayed; the verifier (/verif/engine) gives the
+// quantifier helpers their logical meaning instead of executing the loop.
+package verifspec
+
+// Forall reports whether f holds for every i in [lo, hi).
+func Forall(lo, hi int, f func(int) bool) bool {
+	for i := lo; i < hi; i++ {
+		if !f(i) {
+			return false
+		}
+	}
+	return true
+}
+
+// Exists reports whether f holds for some i in [lo, hi).
+func Exists(lo, hi int, f func(int) bool) bool {
+	for i := lo; i < hi; i++ {
+		if f(i) {
+			return true
+		}
+	}
+	return false
+}
+
+// SameBytes reports whether a and b have the same length and contents.
+func SameBytes(a, b []byte) bool {
+	return len(a) == len(b) && Forall(0, len(a), func(i int) bool { return a[i] == b[i] })
+}
+
+// Implies is material implication (both sides are evaluated).
+func Implies(a, b bool) bool { return !a || b }
